@@ -34,7 +34,8 @@ if h:
                 "impl.obs", "model.obs", "scan",
                 "correspondence Scan.scan_objects / parse_string / parse_name (model) vs scanner.go, on the "
                 "implementation's formatted text (must give the original values) and on arbitrary bytes "
-                "(value or error class)",
+                "(value or error class); the key sequence of every dictionary the implementation writes, as the model "
+                "scanner reads it from the text, must be the model's SortedKeys order (op SO, Scan.text_ordered)",
             )
         # (b) model formatter -> real scanner
         rc, out = c.run("%s < cases_b.txt > model_b.obs" % drv, timeout=3000)
